@@ -45,6 +45,20 @@ SING = [
     ("tau*(x - a)/(1 - exp(-(x - a)/tau))", [("x", "a", "tau*tau")]),
     ("sin(x - tau)/(x - tau)", [("x", "tau", "1")]),
     ("sin(y)/(y - pi)", [("y", "pi", "-1")]),
+    # singular points written as float literals
+    ("(x - 1.5)/(exp((x - 1.5)/4) - 1)", [("x", "1.5", "4")]),
+    ("(x + 47.13)/(1 - exp(-0.1*(x + 47.13)))", [("x", "-47.13", "10")]),
+    ("0.32*(x + 47.13)/(1 - exp(-0.1*(x + 47.13)))", [("x", "-47.13", "3.2")]),
+    ("sin(x - 0.25)/(x - 0.25)", [("x", "0.25", "1")]),
+    # a factor that appears verbatim in numerator and denominator
+    ("(x - a)/(x - a)", [("x", "a", "1")]),
+    ("(x + 40)*(x - 10)/(x + 40)", [("x", "-40", "-50")]),
+    ("tau*(x - a)*y/(x - a)", [("x", "a", "tau*y")]),
+    # one removable singularity next to a pole (in the same or in another state)
+    ("(x - 1)/(x**2 - 1)", [("x", "1", "1/2")]),
+    ("sin(y)/y + a/(y - 3)", [("y", "0", "1 + a/(0 - 3)")]),
+    ("sin(x)/x + 1/y", [("x", "0", "1 + 1/y")]),
+    ("x/(exp(x) - 1) + tau/(x + 2)", [("x", "0", "1 + tau/2")]),
     ("1/x", []),
     ("y/(x - 1)", []),
     ("x*y + exp(-x)", []),
